@@ -40,6 +40,8 @@ func (p Param) WireName() string {
 type Alt struct {
 	Scheme string   `json:"scheme"`
 	Scopes []string `json:"scopes"`
+	// Bare: written as "@Security(scheme)" without a properties object (only with empty scopes)
+	Bare bool `json:"bare,omitempty"`
 }
 
 type Method struct {
@@ -123,6 +125,8 @@ type Project struct {
 	Aliases     []Alias      `json:"aliases,omitempty"`
 	// ControllerGlobs as written in the config (relative to the project root)
 	Globs []string `json:"globs"`
+	// Extensions: names of routes-template extension hooks the configuration fills with a comment line
+	Extensions []string `json:"extensions,omitempty"`
 }
 
 // ---------------------------------------------------------------- ground truth
